@@ -454,7 +454,7 @@ pub fn values(ctx: &Ctx) {
 // ------------------------------------------------------------------------------------------
 // call orders
 
-const N_SESS: usize = 15;
+const N_SESS: usize = 16;
 
 /// All sequences of depth <= 4 (quick 3) of API sessions including misuse; a small reference says
 /// which calls must fail; whenever the top-level finalize succeeds the file must read back.
@@ -562,6 +562,7 @@ const SESS_NAMES: [&str; N_SESS] = [
     "blob(7)",
     "cloud(ext attribute)",
     "set_creation+coordinate_metadata",
+    "register_extension(ext, other url)",
 ];
 
 #[allow(clippy::too_many_arguments)]
@@ -731,6 +732,19 @@ fn session(
                 (Err(_), false) => {}
                 (Ok(_), false) => problems.push("add_pointcloud accepted an attribute of an unregistered extension namespace".into()),
                 (Err(e), true) => return Err(es("add_pointcloud with registered extension", e)),
+            }
+        }
+        15 => {
+            // the same namespace with another URL: must be refused once the namespace is taken
+            let r = w.register_extension(Extension::new("ext", "http://example.com/other"));
+            match (r, *ext_registered) {
+                (Ok(()), false) => {
+                    *ext_registered = true;
+                    exp.extensions.push(("ext".into(), "http://example.com/other".into()));
+                }
+                (Err(_), true) => {}
+                (Ok(()), true) => problems.push("registering an already registered extension namespace with a different URL returned Ok".into()),
+                (Err(e), false) => return Err(es("register_extension", e)),
             }
         }
         _ => {
